@@ -47,9 +47,9 @@ TCall == /\ Ev.k = "call" /\ ~IsNopCall
             ELSE IF Ev.x.op = "drive"
             THEN /\ notified' = [notified EXCEPT ![P] = FALSE]          \* the task clears its notification before its first poll
                  /\ drv' = [drv EXCEPT ![P] = [on |-> TRUE, s |-> Sid(Ev.x.s), max |-> Ev.x.max, got |-> 0]]
-                 /\ UNCHANGED <<ring, sm, waker, wlock, keep, pc, reg, gh, hid>>
+                 /\ UNCHANGED <<ring, sm, waker, wlock, keep, pc, reg, gh, og, hid>>
             ELSE /\ pc[P] = "idle" /\ pc' = [pc EXCEPT ![P] = "other"]
-                 /\ UNCHANGED <<ring, sm, wk, reg, gh, drv, hid>>
+                 /\ UNCHANGED <<ring, sm, wk, reg, gh, og, drv, hid>>
 
 \* return of a poll: the model's result is the recorded one; inside a drive an item with more to come clears the notification at once
 TRetPoll ==
@@ -58,7 +58,7 @@ TRetPoll ==
     /\ (Ev.x.r = "item") => (reg[P].rv = Ev.x.v)
     /\ pc' = [pc EXCEPT ![P] = "idle"]
     /\ got' = IF Ev.x.r = "item" THEN [got EXCEPT ![reg[P].sid] = Append(@, reg[P].rv)] ELSE got
-    /\ UNCHANGED <<ring, sm, waker, wlock, keep, reg, old, owed, done, life, hid>>
+    /\ UNCHANGED <<ring, sm, waker, wlock, keep, reg, old, owed, done, life, og, hid>>
     /\ IF drv[P].on /\ Ev.x.r = "item"
        THEN /\ drv' = [drv EXCEPT ![P].got = @ + 1]
             /\ notified' = IF drv[P].got + 1 < drv[P].max THEN [notified EXCEPT ![P] = FALSE] ELSE notified
@@ -74,7 +74,7 @@ TRetOther ==
        ELSE IF Ev.fn = "drive"
        THEN drv' = [drv EXCEPT ![P] = NoDrv] /\ UNCHANGED <<mvars, hid>>
        ELSE /\ pc[P] = "other" /\ pc' = [pc EXCEPT ![P] = "idle"]
-            /\ UNCHANGED <<ring, sm, wk, reg, gh, drv, hid>>
+            /\ UNCHANGED <<ring, sm, wk, reg, gh, og, drv, hid>>
 
 TRet == Ev.k = "ret" /\ ~IsNopRet /\ (TRetPoll \/ TRetOther)
 
@@ -95,7 +95,22 @@ RingOp ==
   \/ IsOp("consume_leaking_internal", "dequeuer_head", "cas") /\ ~Ev.ok /\ pc[P] = "D3" /\ WV(Ev.r) = rdh[Ring] /\ DeqRecedeFail(P)
   \/ IsOp("release_leaked_internal", "head", "cas") /\ Ev.ok /\ pc[P] = "D4" /\ WV(Ev.a) = reg[P].slot /\ DeqRelease(P)
 
+\* Kind = "ogre": the allocator's free list (the same AtomicMove functions, on another object: told apart by where the thread is),
+\* the reference counter of the event in hand
+OgreOp ==
+  \/ IsOp("consume_leaking_internal", "dequeuer_head", "fa") /\ pc[P] = "A1" /\ WV(Ev.r) = pl.dh /\ PoolDeqFA(P)
+  \/ IsOp("consume_leaking_internal", "tail", "ld") /\ pc[P] = "A2" /\ WV(Ev.r) = pl.t /\ PoolDeqLoadTail(P)
+  \/ IsOp("release_leaked_internal", "head", "cas") /\ Ev.ok /\ pc[P] = "A3" /\ WV(Ev.a) = reg[P].ps /\ PoolDeqRelease(P)
+  \/ IsOp("running_streams_count", "used_streams_count", "ld") /\ pc[P] = "S1" /\ Ev.r = count /\ SendCount(P)
+  \/ IsOp("increment_references", "references_count", "fa") /\ pc[P] = "S2" /\ Ev.a = reg[P].n /\ Ev.r = refs[reg[P].v] /\ SendIncRefs(P)
+  \/ IsOp("drop", "references_count", "fs") /\ pc[P] = "H1" /\ (reg[P].hv \in DOMAIN refs => Ev.r = refs[reg[P].hv]) /\ HandleDrop(P)
+  \/ IsOp("leak_slot_internal", "enqueuer_tail", "fa") /\ pc[P] = "Z1" /\ WV(Ev.r) = pl.e /\ PoolEnqFA(P)
+  \/ IsOp("leak_slot_internal", "head", "ld") /\ pc[P] = "Z2" /\ WV(Ev.r) = pl.h /\ PoolEnqLoadHead(P)
+  \/ IsOp("try_publish_leaked_internal", "tail", "cas") /\ Ev.ok /\ pc[P] = "Z3" /\ WV(Ev.a) = reg[P].ps /\ PoolEnqPublish(P)
+
 SpinOp ==   \* a publication / release / lock attempt before its turn: nothing changes
+  \/ IsOp("release_leaked_internal", "head", "cas") /\ ~Ev.ok /\ pc[P] = "A3" /\ pl.h # reg[P].ps
+  \/ IsOp("try_publish_leaked_internal", "tail", "cas") /\ ~Ev.ok /\ pc[P] = "Z3" /\ pl.t # reg[P].ps
   \/ IsOp("try_publish_leaked_internal", "tail", "cas") /\ ~Ev.ok /\ pc[P] = "E5" /\ rt[Ring] # reg[P].slot
   \/ IsOp("release_leaked_internal", "head", "cas") /\ ~Ev.ok /\ pc[P] = "D4" /\ rh[Ring] # reg[P].slot
   \/ Ev.k = "op" /\ Ev.o = "cas" /\ ~Ev.ok /\ pc[P] \in {"W2", "R2", "XW2", "P1"} /\ wlock
@@ -133,10 +148,10 @@ SmOp ==
   \/ IsY("sync_vacant_and_used_streams", "sm.used.write") /\ SyncWrite(P)
   \/ IsOp("sync_vacant_and_used_streams", "streams_lock", "st") /\ SyncUnlock(P)
 
-TOp == Ev.k = "op" /\ (IF InOther(P) THEN Stutter ELSE ((RingOp \/ SmOp) /\ Same) \/ (SpinOp /\ Stutter))
+TOp == Ev.k = "op" /\ (IF InOther(P) THEN Stutter ELSE ((RingOp \/ SmOp \/ OgreOp) /\ Same) \/ (SpinOp /\ Stutter))
 
 TNote == \/ Ev.k = "unpark" /\ drv[P].on /\ notified[P]
-            /\ notified' = [notified EXCEPT ![P] = FALSE] /\ UNCHANGED <<ring, sm, waker, wlock, keep, pc, reg, gh, drv, hid>>
+            /\ notified' = [notified EXCEPT ![P] = FALSE] /\ UNCHANGED <<ring, sm, waker, wlock, keep, pc, reg, gh, og, drv, hid>>
          \/ Ev.k = "park" /\ drv[P].on /\ reg[P].res = "pending" /\ Stutter
          \/ Ev.k \in {"wake", "suspended", "panic", "final", "slept"} /\ Stutter
 
@@ -145,6 +160,8 @@ BadOf == IF ~InvRingBounds THEN "InvRingBounds"
          ELSE IF ~InvLocks THEN "InvLocks"
          ELSE IF ~InvRunningCount THEN "InvRunningCount"
          ELSE IF ~InvListInSync THEN "InvListInSync"
+         ELSE IF ~InvNoUseAfterFree THEN "InvNoUseAfterFree"
+         ELSE IF ~InvPoolBounds THEN "InvPoolBounds"
          ELSE ""
 
 TraceNext == /\ l <= Len(Rec)
